@@ -13,7 +13,7 @@
   UNCONDITIONAL (no hypothesis about the core left):
     * registry bookkeeping: `C08_wrap`, `C08_drop`, `C08_drop_wrap_id`, `C08_counts`
     * with reordering not enabled (`off = true`): `C08_ops_off` — `var`, `true/false`,
-      `apply` with every alias that does not quantify, `ite`, `quantify/exist/forall`,
+      `apply` with every alias that does not quantify, `ite`, `quantify/exist/forall`, `cube`,
       `_add_int`, `copy_bdd` into the same manager, `copy.copy`, the operators
       `~ & | implies equiv`, `== != <= <` (temporaries released), `low/high`, `succ`,
       `collect_garbage`, `configure` — and histories over them (`C08_live_den`)
@@ -21,8 +21,7 @@
       table (`C08_ops_unconditional`)
     * shutdown after "drop everything, collect" (`C08_collect_then_shutdown`)
   CONDITIONAL, hypotheses named: `CoreSpecs off` (mode `false` = reordering possibly enabled:
-  everything that can reorder), and for mode `true` the rest: `let` (`LetSpec`), `cube`
-  (`CubeSpec`), `apply` with the quantifier aliases (`ApplyQuantSpec`), `image/preimage`
+  everything that can reorder), and for mode `true` the rest: `let` (`LetSpec`), `apply` with the quantifier aliases (`ApplyQuantSpec`), `image/preimage`
   (`ImageSpec`), copies between managers (`CopySpec`), `declare/add_var/copy_vars`
   (`VarsSpec`), `reorder` (`ReorderSpec`); `find_or_add` per state (`C08_find_or_add`);
   shutdown with garbage still stored (`GcSpec0`: `collect_garbage` after the terminal's own
@@ -143,6 +142,7 @@ theorem C08_ops_off (h : Nat) :
     (∀ op, NonQuant op → ∀ hu hv hw, AKeeps true h (aApply op hu hv hw h)) ∧
     (∀ hg hu hv, AKeeps true h (aIte hg hu hv h)) ∧
     (∀ hu q fa, AKeeps true h (aQuantify hu q fa h)) ∧
+    (∀ d, AKeeps true h (aCube d h)) ∧
     (∀ i, AKeeps true h (aAddInt i h)) ∧
     (∀ hu, AKeeps true h (aCopyBddSame hu h)) ∧
     (∀ op, NonQuant op → ∀ hs ho, AKeeps true h (fApply op hs ho h)) ∧
@@ -158,7 +158,7 @@ theorem C08_ops_off (h : Nat) :
   ⟨fun n => aVar_keepsOff n h, fun b => aConst_keeps b h,
    fun op hnq hu hv hw => aApply_keepsOff op hnq hu hv hw h,
    fun hg hu hv => aIte_keepsOff hg hu hv h,
-   fun hu q fa => aQuantify_keepsOff hu q fa h,
+   fun hu q fa => aQuantify_keepsOff hu q fa h, fun d => aCube_keepsOff d h,
    fun i => aAddInt_keeps i h, fun hu => aCopyBddSame_keeps hu h,
    fun op hnq hs ho => fApply_keepsOff op hnq hs ho h,
    fun high hs => fChild_keeps high hs h, fun hs => fCopy_keeps hs h,
@@ -177,9 +177,6 @@ theorem C08_operator_aliases :
 /-- `let` (cofactor / compose / rename) -/
 structure LetSpec : Prop where
   letOp : ∀ d u, CoreKeeps true (letOp d u)
-/-- `cube` -/
-structure CubeSpec : Prop where
-  cube : ∀ d, CoreKeeps true (cube d)
 /-- `apply` with the aliases that quantify (`\A`, `\E`, `forall`, `exists`) -/
 structure ApplyQuantSpec : Prop where
   apply : ∀ op, ¬ NonQuant op → ∀ u v w, CoreKeeps true (apply op u v w)
@@ -200,7 +197,7 @@ structure ReorderSpec : Prop where
   reorder : ∀ o, CoreKeeps true (reorder o)
 
 /-- reordering not enabled: the whole list, from the remaining named hypotheses only -/
-theorem C08_ops_off_of_rest (hl : LetSpec) (hc : CubeSpec) (hq : ApplyQuantSpec) (hi : ImageSpec)
+theorem C08_ops_off_of_rest (hl : LetSpec) (hq : ApplyQuantSpec) (hi : ImageSpec)
     (hcp : CopySpec) (hv : VarsSpec) (hr : ReorderSpec) : C08_ops_statement true :=
   C08_ops_of_coreSpecs
     { var := var_keepsOff
@@ -211,7 +208,7 @@ theorem C08_ops_off_of_rest (hl : LetSpec) (hc : CubeSpec) (hq : ApplyQuantSpec)
       ite := ite_keepsOff
       letOp := hl.letOp
       quantify := fun m u hm q f => quantify_keepsAtOff m u hm q f
-      cube := hc.cube
+      cube := cube_keepsOff
       image := hi.image
       preimage := hi.preimage
       reorder := hr.reorder
